@@ -251,6 +251,38 @@ func (w *World) build(parent *TNode, spec BlockSpec) *TNode {
 				break
 			}
 		}
+	case "side-pow-below", "side-pow-at":
+		// the first side block gets another nonce whose proof-of-work value lies just below (must be refused) or just at
+		// (accepted) two thirds of this block's difficulty: fails at D = floor(2d/3) but passes at D-1, resp. passes at D
+		if len(bl.SideBlocks) > 0 {
+			d23 := bl.Difficulty.Mul64(2).Div64(3)
+			if !d23.IsZero() && d23.Cmp(uint128.From64(1)) > 0 {
+				seedS := block.MiningBlob{Timestamp: bl.Timestamp}.GetSeed()
+				sc := bl.SideBlocks[0]
+				for try := 0; try < 4000; try++ {
+					sc.Nonce = uint32(w.rng.U64())
+					var hsh [32]byte
+					okHash := true
+					func() {
+						defer func() {
+							if recover() != nil {
+								okHash = false
+							}
+						}()
+						hsh = randomvirel.PowHash(seedS, sc.MiningBlob().Serialize())
+					}()
+					if !okHash {
+						break
+					}
+					atD := block.ValidPowHash32(hsh, d23)
+					atD1 := block.ValidPowHash32(hsh, d23.Sub64(1))
+					if (spec.Corrupt == "side-pow-below" && !atD && atD1) || (spec.Corrupt == "side-pow-at" && atD && !block.ValidPowHash32(hsh, d23.Add64(1))) {
+						bl.SideBlocks[0] = sc
+						break
+					}
+				}
+			}
+		}
 	case "drop-tx":
 		// block lists a transaction that is not supplied: handled by the caller through Txs
 	}
